@@ -104,15 +104,33 @@ Proof. exact zip_longest_fuel_ok. Qed.
 Print Assumptions C19_zip_longest_fuel_ok.
 
 Theorem C19_reduce_agrees : forall (f : Z -> Z -> Z) (initial : option Z) (s : src),
-  outcome (reduce_model f initial s) = reduce_spec f initial (snd s).
+  outcome (reduce_model f initial s false) = reduce_spec f initial (snd s).
 Proof. exact reduce_agrees. Qed.
 Print Assumptions C19_reduce_agrees.
 
 Theorem C19_tee_consumers_see_all : forall (mode : nat) (source : list Z) (n : nat) (ops : list top) (c : nat),
   let s := trun mode source n ops in
-  tseen s c = firstn (length (tseen s c)) source /\ (tstopped s c = true -> tseen s c = source).
+  tseen s c = firstn (length (tseen s c)) (skipn (tstart s c) source) /\
+  (tstopped s c = true -> tseen s c = skipn (tstart s c) source).
 Proof. exact tee_consumers_see_all. Qed.
 Print Assumptions C19_tee_consumers_see_all.
+
+Theorem C19_tee_originals_start : forall (mode : nat) (source : list Z) (n : nat) (ops : list top) (c : nat),
+  c < n -> tstart (trun mode source n ops) c = 0.
+Proof. exact tee_originals_start. Qed.
+Print Assumptions C19_tee_originals_start.
+
+Theorem C19_tee_copy_spec : forall (s : tst) (c k : nat) (s' : tst) (r : tres) (ev : list (event Z)),
+  tstep s (TCopy c k) = (s', r, ev) -> c < tn s ->
+  r = TCopied (tn s) /\ ev = [] /\ tn s' = tn s + k /\
+  (forall j, tn s <= j < tn s + k ->
+     tstart s' j = tlink s c /\ tlink s' j = tlink s c /\ tseen s' j = [] /\ tstopped s' j = false /\
+     tyielded s' j = false /\ tcks s' j = 0 /\ tlocks s' j = 0) /\
+  (forall j, j < tn s ->
+     tstart s' j = tstart s j /\ tlink s' j = tlink s j /\ tseen s' j = tseen s j /\ tstopped s' j = tstopped s j /\
+     tyielded s' j = tyielded s j /\ tphase s' j = tphase s j).
+Proof. exact tee_copy_spec. Qed.
+Print Assumptions C19_tee_copy_spec.
 
 Theorem C19_tee_source_once : forall (mode : nat) (source : list Z) (n : nat) (ops : list top),
   let s := trun mode source n ops in
